@@ -1050,3 +1050,27 @@ package twig
 //@   ensures[C19] ret1 == nil && typeIs(ret0, "string") && unboxAs(ret0, "string") == fn_ToLower_0(fn_toString_0(value))
 //@ func (*CoreExtension).filterTrim props: C19
 //@   ensures[C19] len(args) == 0 ==> ret1 == nil && typeIs(ret0, "string") && unboxAs(ret0, "string") == fn_TrimSpace_0(fn_toString_0(value))
+
+// ---------------------------------------------------------------- for loops (C09)
+// At the first node of the body in round i of a loop over `length` elements the loop variable holds
+// index = i + 1, index0 = i, revindex = length - i, revindex0 = length - i - 1, first = (i == 0),
+// last = (i == length - 1), length = length, with 0 <= i < length and length the number of elements
+// of the sequence (characters for a string); the body is rendered in the loop's context; the else
+// branch is rendered exactly when there is nothing to iterate.
+//@ define isInt(X, V) (typeIs(X, "int") && unboxAs(X, "int") == V)
+//@ define isBool(X, V) (typeIs(X, "bool") && unboxAs(X, "bool") == V)
+//@ define loopVar() unboxAs(ctx.context["loop"], "map[string]interface{}")
+//@ define loopMeta(I) (has(ctx.context, "loop") && typeIs(ctx.context["loop"], "map[string]interface{}") && isInt(loopVar()["index"], I + 1) && isInt(loopVar()["index0"], I) && isInt(loopVar()["revindex"], length - I) && isInt(loopVar()["revindex0"], length - I - 1) && isBool(loopVar()["first"], I == 0) && isBool(loopVar()["last"], I == length - 1) && isInt(loopVar()["length"], length) && 0 <= I)
+//@ define ownLoopMap() unboxAs(loopVars["loop"], "map[string]interface{}")
+//@ func (*ForNode).renderForLoop props: C09
+//@   requires ctx.context != nil
+//@   atcall[C09] Node.Render#1 a2 == ctx && seq == nil
+//@   atcall[C09] Node.Render#2 a2 == ctx && (!isIterable || length == 0)
+//@   loop 4 invariant[C09] 0 <= i && length == ufi_rvlen(val) && loopMapFresh() && has(ownLoopMap(), "length") && isInt(ownLoopMap()["length"], length)
+//@   loop 8 invariant[C09] 0 - 1 <= i && loopMapFresh() && has(ownLoopMap(), "length") && isInt(ownLoopMap()["length"], length)
+//@   loop 5 invariant[C09] rangeindex + 1 == 0 ==> loopMeta(i) && i < length
+//@   loop 9 invariant[C09] rangeindex + 1 == 0 ==> loopMeta(i)
+//@   loop 5 invariant[C09] loopMapFresh() && has(ownLoopMap(), "length") && isInt(ownLoopMap()["length"], length)
+//@   loop 9 invariant[C09] loopMapFresh() && has(ownLoopMap(), "length") && isInt(ownLoopMap()["length"], length)
+//@   atcall[C09] Node.Render#3 a2 == ctx
+//@   atcall[C09] Node.Render#5 a2 == ctx
